@@ -14,7 +14,7 @@ PROP = 'C09'
 MANIFEST = dict(
     technique='TLA+ model (Alias: class schemas, heap cells, deep copy with fresh cells, in-place mutation, operators) checked by TLC; every TLC-enumerated (class, optional blocks, copy target, cell or method, side) case executed on real objects; real heap walks and export text validated by TLC (AliasTrace)',
     category='model_checking',
-    text='The class schemas of Entity / Solid / Side (with DispVertex, UVAxis) / Output / VisGroup / Keyvalues / EntityFixup / FixupValue are constants of the specification. TLC checks on the model that a copy reaches no cell of its source, exports identically (IDs and map aside), and that every in-place mutation of any cell or by any mutating method on one side leaves the other side\'s export unchanged, for every combination of optional blocks (displacement, multiblend, strata points, fixups, outputs, brushes, visgroup children, nested keyvalues) and both copy targets. Every such case is executed on real objects: the driver walks the real heap (attributes, slots, containers) of original and copy, TLC requires the set of shared mutable cells to be empty, every object to have exactly the fields of its schema, the copy to carry every field and export key of the source apart from IDs, and the untouched side to be unchanged after each mutation (all real cells, not only the model\'s; seeded multi-step mutation sequences; copies made by collapse_one). 38 operator/operand-type combinations (Keyvalues +, Vec/Angle/Matrix arithmetic incl. frozen types) are executed with operand snapshots before/after.',
+    text='The class schemas of Entity / Solid / Side (with DispVertex, UVAxis) / Output / VisGroup / Keyvalues / EntityFixup / FixupValue are constants of the specification. TLC checks on the model that a copy reaches no cell of its source, exports identically (IDs and map aside), and that every in-place mutation of any cell or by any mutating method on one side leaves the other side\'s export unchanged, for every combination of optional blocks (displacement, multiblend, strata points, fixups, outputs, brushes, visgroup children, nested keyvalues) and both copy targets. Every such case is executed on real objects: the driver walks the real heap (attributes, slots, containers) of original and copy, TLC requires the set of shared mutable cells to be empty, every object to have exactly the fields of its schema, the copy to carry every field and export key of the source apart from IDs, and the untouched side to be unchanged after each mutation (all real cells, not only the model\'s; seeded multi-step mutation sequences; copies made by collapse_one). 38 operator/operand-type combinations (Keyvalues +, Vec/Angle/Matrix arithmetic incl. frozen types) are executed with operand snapshots before/after. The Keyvalues mutators are covered by a second model (KvTree: append, set, delete, extend, +=, +, copy-then-mutate at every depth, ensure_exists, merge_children, set_key paths, lookups), all ~41k transitions replayed on real Keyvalues objects.',
     design_ref='4 (C09)',
     note='Trusts TLC, the generic heap walker (slots, __dict__, list/dict/set/array items; VMF objects are context, not content) and SHA-1 digests of walks/exports used for the before/after comparison of mutation records. Displacements of power 1, lists of 2 elements; float content is compared by repr, no arithmetic is judged. Pure-Python tree only.',
 )
